@@ -92,6 +92,10 @@ def corpus_defs(tier):
         # VP9 marker and header bytes
         dict(alpha=[0x49, 0x83, 0x42, 0x00, 0x10, 0x80, 0x0c, 0x01], maxlen=4 if q else 6, cfg=False),
     ])
+    d['fnopus'] = dict(trace='TraceFn', kind='fnt', runs=[
+        # Opus TOC codes 0-3 on several configurations, frame-count bytes (0, 1, 63, 64 = padding bit, 0x80 = VBR bit)
+        dict(alpha=[0x00, 0x01, 0x02, 0x03, 0xfb, 0x3f, 0x40, 0x80], maxlen=3 if q else 5, cfg=False),
+    ])
     d['fncfg'] = dict(trace='TraceFn', kind='fnt', runs=[
         dict(alpha=[0, 1, 0x67, 0x68, 0x65], maxlen=6 if q else 8, cfg=True),
         dict(alpha=[0, 1, 0x40, 0x42, 0x44, 0x26], maxlen=5 if q else 7, cfg=True),
@@ -127,7 +131,7 @@ def corpus_defs(tier):
     d['mutbytes'] = dict(trace='TraceFn', kind='fnlist', gen='mutbytes')
     d['mutframes'] = dict(trace='TraceMuxide', rand=[dict(gen='mutframes', n=0, rel=None, facets=None)])
     # --- bound: numeric embedding, values just below / on / above the 32-bit field limits (C16) -------
-    d['bound'] = dict(trace='TraceMuxide', rand=[dict(gen='bound', n=0, rel=None, facets=None), dict(gen='widths', n=0, rel='none', facets=None)])
+    d['bound'] = dict(trace='TraceMuxide', rand=[dict(gen='bound', n=0, rel='filtered', facets=None), dict(gen='widths', n=0, rel='none', facets=None)])
     d['boundfrag'] = dict(trace='TraceFrag', rand=[dict(gen='boundfrag', n=0, rel=None, facets=None)])
     # --- cli: the built muxide binary vs. the in-process library (C20) -----------------------------
     d['cli'] = dict(trace='TraceCli', rand=[dict(gen='cli', n=0, rel=None, facets=None)], cli_info=True)
